@@ -299,6 +299,24 @@ func (g Gateway) Set(ctx context.Context, in *hydrapb.SetRequest) (*hydrapb.SetR
 					guardID := treasureInterface.StartTreasureGuard(true)
 					defer treasureInterface.ReleaseTreasureGuard(guardID)
 
+					// The existence checks above ran before the guard was taken: a concurrent
+					// writer may have created (or deleted) the key in the meantime. Decide the
+					// insert-only / update-only modes again now that we own the record.
+					if !swampRequest.Overwrite && swampInterface.TreasureExists(item.Key) {
+						response = append(response, &hydrapb.KeyStatusPair{
+							Key:    item.Key,
+							Status: hydrapb.Status_NOTHING_CHANGED,
+						})
+						return
+					}
+					if !swampRequest.GetCreateIfNotExist() && !swampInterface.TreasureExists(item.Key) {
+						response = append(response, &hydrapb.KeyStatusPair{
+							Key:    item.Key,
+							Status: hydrapb.Status_NOT_FOUND,
+						})
+						return
+					}
+
 					// set the content type and content
 					keyValuesToTreasure(item, treasureInterface, guardID)
 
